@@ -428,6 +428,21 @@ def c39(seed, tier):
             got = (mp.isfinite(v), mp.isinf(v), mp.isnan(v), mp.isnormal(v))
             if got != want:
                 fails.append({'fn': 'classification', 'x': str(v), 'observed': str(got)})
+        # complex magnitudes: |z| <= 2**m and m at most 2 above the optimal exponent (exact on a**2 + b**2)
+        parts = [q for q in xs if abs(q) < 2 ** 30 and abs(q) > Fraction(1, 2 ** 30)][::3] + \
+                [Fraction(99, 100).limit_denominator(128), Fraction(127, 128), Fraction(1, 5).limit_denominator(64), Fraction(255, 256), Fraction(3, 16)]
+        for a in parts[::2]:
+            for b in parts[1::3]:
+                za, zb = mpf(a.numerator) / a.denominator, mpf(b.numerator) / b.denominator
+                qa, qb = Fraction(*mpmath.libmp.to_rational(za._mpf_)), Fraction(*mpmath.libmp.to_rational(zb._mpf_))
+                n += 1
+                m = mp.mag(mpc(za, zb))
+                sq = qa * qa + qb * qb
+                m0 = (sq.numerator.bit_length() - sq.denominator.bit_length()) // 2 - 2
+                while Fraction(4) ** m0 < sq:
+                    m0 += 1
+                if not (sq <= Fraction(4) ** m and m <= m0 + 2):
+                    fails.append({'fn': 'mag', 'x': '%s + %s i' % (qa, qb), 'observed': 'mag = %s, optimal %s (|z|^2 = %s)' % (m, m0, float(sq)), 'class': 'mag-complex'})
         n += 1
         if mp.mag(mpf(0)) != mp.ninf or mp.mag(mp.inf) != mp.inf:
             fails.append({'fn': 'mag', 'x': '0/inf', 'observed': 'wrong special value'})
@@ -508,3 +523,57 @@ def c29(seed, tier):
 
 
 CHECKS['C29'] = c29
+
+
+# ------------------------------------------------------------------------------------------ C35 (pslq acceptance, bounded)
+def c35(seed, tier):
+    """whatever pslq returns is a non-zero integer vector below maxcoeff with |c.x| <= tol*||x||_2 (checked exactly on the
+    rational values of the mpf inputs); planted small relations are found at scales 2**-20 .. 2**40"""
+    import mpmath
+    from mpmath import mp, mpf
+    rng = random.Random(seed)
+    n = 0
+    fails = []
+    try:
+        for prec in (53, 100) if tier == 'quick' else (40, 53, 100, 200):
+            mp.prec = prec
+            consts = [mp.pi, mp.e, mp.euler, mp.sqrt(2), mp.ln2, mp.catalan]
+            vecs = []
+            for sc in (-40, -20, -5, 0, 7, 40):
+                f = mpf(2) ** sc
+                vecs.append(([mp.pi * f, mp.e * f], None))
+                vecs.append(([mp.pi * f, mp.e * f, mp.euler * f], None))
+                vecs.append(([mp.sqrt(2) * f, mp.sqrt(3) * f, mp.sqrt(5) * f], None))
+                if sc >= -20:
+                    a, b = consts[rng.randrange(6)], consts[rng.randrange(6)]
+                    vecs.append(([a * f, b * f, (3 * a - 7 * b) * f], 'planted'))
+                    vecs.append(([mpf(1) * f, mp.sqrt(2) * f, (5 + 2 * mp.sqrt(2)) * f], 'planted'))
+            for x, kind in vecs:
+                for tol in (None, mpf(2) ** -20, mpf(2) ** (-prec // 2)):
+                    n += 1
+                    kw = {} if tol is None else {'tol': tol}
+                    try:
+                        c = mp.pslq(x, maxcoeff=1000, maxsteps=10000, **kw)
+                    except Exception as e:
+                        fails.append({'fn': 'pslq', 'x': str([mp.nstr(v, 8) for v in x]), 'prec': prec, 'observed': 'raised %r' % e})
+                        continue
+                    if c is None:
+                        if kind == 'planted' and tol is None:
+                            fails.append({'fn': 'pslq', 'x': str([mp.nstr(v, 8) for v in x]), 'prec': prec, 'observed': 'planted relation not found'})
+                        continue
+                    xs = [Fraction(*mpmath.libmp.to_rational(v._mpf_)) for v in x]
+                    t = Fraction(*mpmath.libmp.to_rational((tol if tol is not None else mp.eps ** 0.75)._mpf_)) if True else None
+                    dot = abs(sum(ci * xi for ci, xi in zip(c, xs)))
+                    nrm2 = sum(xi * xi for xi in xs)
+                    ok = (all(isinstance(ci, int) for ci in c) and any(c) and max(abs(ci) for ci in c) < 1000
+                          and dot * dot <= t * t * nrm2 * 4)          # factor 2 of slack on the bound
+                    if not ok:
+                        fails.append({'fn': 'pslq', 'x': str([mp.nstr(v, 8) for v in x]), 'prec': prec,
+                                      'observed': 'returned %s with |c.x| = %.3g, tol*||x|| = %.3g' % (c, float(dot), float(t) * float(nrm2) ** 0.5)})
+    finally:
+        mp.prec = 53
+    return n, n, fails, [{'x': '[pi, e] * 2**-40'}], ('vectors of classical constants with and without planted relations at scales 2**-40 .. 2**40, '
+                                                    'three tolerances, precisions 53 / 100: every returned vector is checked exactly against tol*||x||_2')
+
+
+CHECKS['C35'] = c35
